@@ -261,4 +261,49 @@ def sqliteShape : Bool :=
   followedBy rowsErr [setErr, ifMarshalErr] sqlStreamBatchFlow &&
   inside rowsNext forO sqlStreamBatchFlow
 
+/-- Subscribe / SubscribeContext: the options are applied (a nil option is refused first) before the registration
+becomes visible; the registration is appended – once – under the shard's write lock -/
+def subscribeShapeOf (l : List Nat) : Bool :=
+  chain [rangeOpts, ifNilOpt, callOpt, shardLock, callAppend, setShardHandlers, shardUnlock] l &&
+  inside ifNilOpt rangeOpts l && inside callOpt rangeOpts l && outside callOpt ifNilOpt l &&
+  count callAppend l == 1 && count setShardHandlers l == 1 && outside setShardHandlers rangeOpts l
+
+def subscribeShape : Bool := subscribeShapeOf subscribeFlow && subscribeShapeOf subscribeCtxFlow
+
+/-- Unsubscribe: under the shard's write lock (unlock deferred at once) walk the registrations of the type, and at the
+FIRST one whose handler has the given code pointer remove that one entry and return; "not found" only after the loop -/
+def unsubscribeShape : Bool :=
+  followedBy shardLock [deferShardUnlock] unsubscribeFlow &&
+  chain [shardLock, rangeHandlers, ifSamePtr, callAppend, setShardHandlers] unsubscribeFlow &&
+  inside ifSamePtr rangeHandlers unsubscribeFlow && inside setShardHandlers ifSamePtr unsubscribeFlow &&
+  followedBy setShardHandlers [returnT, closeTok, closeTok] unsubscribeFlow &&
+  count setShardHandlers unsubscribeFlow == 1 && count callAppend unsubscribeFlow == 1
+
+/-- Clear deletes the type's entry under the shard's write lock; ClearAll replaces every shard's map under that shard's lock -/
+def clearShape : Bool :=
+  chain [shardLock, callDelete, shardUnlock] clearFlow && count callDelete clearFlow == 1 &&
+  chain [shardsLock, setShardsHandlers, shardsUnlock] clearAllFlow && inside setShardsHandlers forO clearAllFlow &&
+  inside shardsLock forO clearAllFlow
+
+/-- the two condition variables: a waiter re-checks its condition in a loop around `Wait`, and the state change that can
+satisfy a waiter is followed by a `Broadcast` (not a `Signal`: with several waiters the one that can go on must be woken) –
+`inflight.wait/done` behind `Bus.Wait`, `awaitTurn/releaseTurn` behind the ticket lock of Async+Sequential handlers -/
+def condVarShape : Bool :=
+  inside inflightCondWait forO inflightWaitFlow && chain [setInflightN, ifInflightZero, inflightBroadcast] inflightDoneFlow &&
+  inside inflightBroadcast ifInflightZero inflightDoneFlow &&
+  inside turnCondWait forO awaitTurnFlow && chain [seqMuLock, turnCondWait, seqMuUnlock] awaitTurnFlow &&
+  chain [seqMuLock, setServing, turnBroadcast, seqMuUnlock] releaseTurnFlow && count setServing releaseTurnFlow == 1
+
+/-- MemoryStore: Append reserves the offset and inserts the record under the write lock (unlock deferred at once), the
+offset being formatted from the counter; Read walks the log under the read lock, keeps the events with `offset > from`
+(all of them from the oldest offset) and stops when the limit is reached; SaveOffset writes under the write lock -/
+def memoryStoreShape : Bool :=
+  followedBy memLock [memUnlockDeferred] memAppendFlow && (idxs memLock memAppendFlow).head? == some 0 &&
+  chain [setNextOffset, sprintf, setMemEvents] memAppendFlow && count setMemEvents memAppendFlow == 1 &&
+  followedBy memRLock [memRUnlockDeferred] memReadFlow && (idxs memRLock memReadFlow).head? == some 0 &&
+  chain [rangeMemEvents, ifAfterFrom, ifLimitReached] memReadFlow && inside ifLimitReached ifAfterFrom memReadFlow &&
+  followedBy ifLimitReached [breakT, closeTok] memReadFlow &&
+  followedBy memLock [memUnlockDeferred] memSaveFlow && chain [memLock, setSubscriptions] memSaveFlow &&
+  followedBy memRLock [memRUnlockDeferred] memLoadFlow
+
 end Ebu.Flow
